@@ -155,6 +155,7 @@ type worldOpts struct {
 }
 
 func newWorld(o worldOpts) *world {
+	quiesce.SetBaseline() // goroutines left behind by earlier cases of this process are not part of this case
 	w := &world{chans: map[string]bool{}}
 	w.rid = fmt.Sprintf("case-%d-%d", time.Now().UnixNano(), atomic.AddInt64(&caseSeq, 1))
 	w.taskID = "task-" + w.rid
